@@ -3,6 +3,9 @@ O = "clematis/engine/orchestrator/core.py"
 T1 = "clematis/engine/stages/t1.py"
 T2 = "clematis/engine/stages/t2/core.py"
 P = "clematis/engine/stages/t3/policy.py"
+ZB = "clematis/engine/stages/t3/bundle.py"
+ZP = "clematis/engine/stages/t3/policy.py"
+ZO = "clematis/engine/orchestrator/core.py"
 CASES = [
     ("next-turn-rotates-queue", "mutant", S, "    eligible = [a for a in q if sched[\"consec_turns\"].get(a, 0) < mct]\n", "    eligible = [a for a in q if sched[\"consec_turns\"].get(a, 0) < mct]\n    q.append(q.pop(0))\n", "C17.PURE"),
     ("next-turn-wall-clock", "mutant", S, "    now = _now_ms(ctx)\n    aging_ms = int(fairness_cfg.get(\"aging_ms\", 200))\n", "    import time\n    now = int(time.time() * 1000)\n    aging_ms = int(fairness_cfg.get(\"aging_ms\", 200))\n", "C17.PURE"),
@@ -27,7 +30,12 @@ CASES = [
     ("t2-used-hits-unclamped", "mutant", T2, "        used_hits = retrieved[:_cap_val]\n", "        used_hits = retrieved\n", "C17.CLAMP"),
     ("t2-residuals-from-all", "mutant", T2, "    for ep in used_hits:\n", "    for ep in retrieved:\n", "C17.CLAMP"),
     ("t3-cap-ignores-slice", "mutant", P, "        slice_cap = int(bundle.get(\"slice_caps\", {}).get(\"t3_ops\", base_ops))\n", "        slice_cap = base_ops\n", "C17.CLAMP"),
+    ("bundle-drops-zero-slice-cap", "mutant", ZB, "        if isinstance(caps, dict) and caps.get(\"t3_ops\") is not None:\n            slice_caps[\"t3_ops\"] = int(caps.get(\"t3_ops\"))\n", "        t3_cap = int(caps.get(\"t3_ops\") or 0) if isinstance(caps, dict) else 0\n        if t3_cap > 0:\n            slice_caps[\"t3_ops\"] = t3_cap\n", "C17.BOUNDARY"),
+    ("bundle-positive-cap-only", "mutant", ZB, "        if isinstance(caps, dict) and caps.get(\"t3_ops\") is not None:\n", "        if isinstance(caps, dict) and caps.get(\"t3_ops\") is not None and int(caps.get(\"t3_ops\")) > 0:\n", "C17.BOUNDARY"),
+    ("deliberate-zero-cap-or-base", "mutant", ZP, "    try:\n        slice_cap = int(bundle.get(\"slice_caps\", {}).get(\"t3_ops\", base_ops))\n    except Exception:\n        slice_cap = base_ops\n", "    slice_cap = int((bundle.get(\"slice_caps\") or {}).get(\"t3_ops\") or base_ops)\n", "C17.BOUNDARY"),
+    ("derive-budgets-skips-falsy", "mutant", ZO, "        v = b.get(k)\n        if v is None:\n            continue\n", "        v = b.get(k)\n        if not v:\n            continue\n", "C17.BOUNDARY"),
     # twins
+    ("deliberate-cap-is-none-form", "twin", ZP, "    try:\n        slice_cap = int(bundle.get(\"slice_caps\", {}).get(\"t3_ops\", base_ops))\n    except Exception:\n        slice_cap = base_ops\n", "    _sc = (bundle.get(\"slice_caps\", {}) or {}).get(\"t3_ops\")\n    try:\n        slice_cap = base_ops if _sc is None else int(_sc)\n    except Exception:\n        slice_cap = base_ops\n", None),
     ("rr-first-eligible-next", "twin", S, "        return eligible[0], {}, \"ROUND_ROBIN\"\n", "        first = eligible[0]\n        return first, {}, \"ROUND_ROBIN\"\n", None),
     ("reset-sorted-first", "twin", S, "        agent = min(q)  # deterministic\n", "        agent = min(q)\n        _ = len(q)\n", None),
     ("wall-test-local", "twin", O, "    if \"wall_ms\" in budgets and elapsed_ms >= budgets[\"wall_ms\"]:\n        return \"WALL_MS\"\n", "    wall_hit = \"wall_ms\" in budgets and elapsed_ms >= budgets[\"wall_ms\"]\n    if wall_hit:\n        return \"WALL_MS\"\n", None),
